@@ -172,9 +172,30 @@ class Merge(Expr):
             result.update(self.right.unique_partition_mapping_columns_from_shuffle)
             return result
 
+        if (
+            "broadcast" in self._parameters
+            and self.is_broadcast_join
+            and not (self.merge_indexed_left and self.merge_indexed_right)
+        ):
+            # Will be lowered to a BroadcastJoin, which does not shuffle by the keys
+            return self._unique_partition_mapping_columns_of_other_side
+
         return {
             tuple(self.left_on) if isinstance(self.left_on, list) else self.left_on,
             tuple(self.right_on) if isinstance(self.right_on, list) else self.right_on,
+        }
+
+    @property
+    def _unique_partition_mapping_columns_of_other_side(self):
+        # A broadcast join shuffles nothing: every output partition is one partition
+        # of the side that is not broadcast, merged with all of the broadcast side.
+        # The result is partitioned like that side, not by the join keys.
+        other = self.right if self.broadcast_side == "left" else self.left
+        columns = set(self.columns)
+        return {
+            cols
+            for cols in other.unique_partition_mapping_columns_from_shuffle
+            if (set(cols) if isinstance(cols, tuple) else {cols}) <= columns
         }
 
     @property
@@ -719,6 +740,10 @@ class BroadcastJoin(Merge, PartitionsFiltered):
                 return self.left.divisions
             npartitions = self.left.npartitions
         return (None,) * (npartitions + 1)
+
+    @property
+    def unique_partition_mapping_columns_from_shuffle(self):
+        return self._unique_partition_mapping_columns_of_other_side
 
     def _simplify_up(self, parent, dependents):
         return
